@@ -270,3 +270,17 @@ def write_evidence(mod, ctx, res, n_viol, known_hit, wall):
         fout.write('\n')
     os.replace(tmp, path)
     return path
+
+
+def pid_space_small():
+    '''
+    True when pids are recycled quickly (default pid_max and it could not be
+    raised, see setup.sh): RP's kill sequence (SIGTERM, 0.1 s, SIGKILL to a
+    process group id) can then hit an unrelated fresh task, so an unscripted
+    death by SIGTERM/SIGKILL of a task nobody named cannot be judged.
+    '''
+    try:
+        with open('/proc/sys/kernel/pid_max') as fin:
+            return int(fin.read().strip()) < 1000000
+    except Exception:
+        return False
